@@ -1,6 +1,6 @@
 (* C01 proofs: the operations that are loops of givaro's own rather than one GMP call:
    logp (integer logarithm by repeated squaring), pp (the part of P prime to Q), Integer(vect_t) / operator vect_t (limbs). *)
-From Coq Require Import ZArith Bool Lia List.
+From Coq Require Import ZArith Bool Lia List Znumtheory Zpow_facts.
 From C01 Require Import Model Model2 Model3 ProofsBase ProofsAdd ProofsMul ProofsCmp ProofsBits ProofsGcd.
 Import ListNotations.
 Local Open Scope Z_scope.
@@ -170,7 +170,56 @@ Proof.
   - apply ctor_vect_spec.
   - apply vect_roundtrip.
 Qed.
-(* pp: proved = a divisor of P coprime to Q; that it is the LARGEST such divisor (P / pp divides a power of Q) is not proved *)
-Definition Pp_coprime_divisor : Prop := forall P Q, P <> 0 -> let r := pp P Q in (r | P) /\ Z.gcd r Q = 1.
-Lemma pp_coprime_divisor : Pp_coprime_divisor.
-Proof. unfold Pp_coprime_divisor; intros; apply pp_spec; assumption. Qed.
+(* pp, second half: the cofactor P / U only collects factors of Q (P divides U * Q^k), hence every divisor of P coprime to Q
+   divides pp(P,Q) (Gauss): pp(P,Q) is the LARGEST divisor of P coprime to Q *)
+Lemma pp_loop_cofactor P Q : forall f U V k, 0 <= k -> (P | U * Q ^ k) -> (V | U) -> (V | Q) ->
+  exists k', 0 <= k' /\ (P | pp_loop f U V * Q ^ k').
+Proof.
+  induction f as [| f IH]; intros U V k Hk HP HVU HVQ.
+  - cbn [pp_loop]. exists k. split; assumption.
+  - cbn [pp_loop]. rewrite opNe_I_ok. unfold Integer_one. destruct (Z.eqb_spec V 1) as [-> | HV1]; cbn [negb].
+    + exists k. split; assumption.
+    + cbv zeta. rewrite gcd_v_ok.
+      destruct (Z.eq_dec V 0) as [-> | HV0].
+      * destruct HVU as [c Hc]. rewrite Z.mul_0_r in Hc. subst U.
+        change (Z.quot 0 0) with 0. apply (IH 0 (Z.gcd 0 0) k); [assumption | assumption | apply Z.gcd_divide_l |].
+        eapply Z.divide_trans; [apply Z.gcd_divide_r | exact HVQ].
+      * destruct HVU as [c Hc].
+        assert (Eq : Z.quot U V = c) by (subst U; apply Z.quot_mul; assumption). rewrite Eq.
+        apply (IH c (Z.gcd c V) (k + 1)).
+        -- lia.
+        -- rewrite Z.pow_add_r, Z.pow_1_r by lia. destruct HVQ as [q Hq]. destruct HP as [p Hp].
+           exists (q * p). subst U.
+           set (t := Q ^ k) in *. clearbody t. rewrite Hq.
+           transitivity (q * (c * V * t)); [ring | rewrite Hp; ring].
+        -- apply Z.gcd_divide_l.
+        -- eapply Z.divide_trans; [apply Z.gcd_divide_r | exact HVQ].
+Qed.
+Lemma pp_cofactor P Q : exists k, 0 <= k /\ (P | pp P Q * Q ^ k).
+Proof.
+  unfold pp, ctor_copy. rewrite gcd_v_ok. apply (pp_loop_cofactor P Q _ P (Z.gcd P Q) 0).
+  - lia.
+  - rewrite Z.pow_0_r, Z.mul_1_r. apply Z.divide_refl.
+  - apply Z.gcd_divide_l.
+  - apply Z.gcd_divide_r.
+Qed.
+Lemma pp_greatest P Q d : (d | P) -> Z.gcd d Q = 1 -> (d | pp P Q).
+Proof.
+  intros HdP Hg. destruct (pp_cofactor P Q) as [k [Hk HP]].
+  assert (Hd : (d | pp P Q * Q ^ k)) by (eapply Z.divide_trans; eassumption).
+  rewrite Z.mul_comm in Hd. apply Gauss with (b := Q ^ k); [exact Hd |].
+  apply rel_prime_Zpower_r; [exact Hk |]. apply Zgcd_1_rel_prime. exact Hg.
+Qed.
+
+(* pp(P,Q), P <> 0: a divisor of P, coprime to Q, divisible by every divisor of P that is coprime to Q (so it is the largest one up to
+   sign), and P / pp(P,Q) divides a power of Q.  Termination within the fuel is part of the statement (pp is the fuelled loop). *)
+Definition Pp_exact : Prop := forall P Q, P <> 0 ->
+  let r := pp P Q in
+  (r | P) /\ Z.gcd r Q = 1 /\ (forall d, (d | P) -> Z.gcd d Q = 1 -> (d | r)) /\ (exists k, 0 <= k /\ (P | r * Q ^ k)).
+Lemma pp_exact : Pp_exact.
+Proof.
+  unfold Pp_exact; intros P Q HP. cbv zeta. destruct (pp_spec P Q HP) as [H1 H2].
+  repeat split; try assumption.
+  - intros d; apply pp_greatest.
+  - apply pp_cofactor.
+Qed.
